@@ -101,11 +101,11 @@ def op_token_spacing(lines, rng):
             if i + 1 < len(ts):
                 gap = line[t.end[1]: ts[i + 1].start[1]]
                 nxt = ts[i + 1]
-                # a space may be added between any two tokens except before '(' of a call written `name(` in the
-                # DSL's regex-matched forms -- that is exactly the "optional spacing" the property quantifies over,
-                # so it IS added, but only around operators, commas and inside parentheses
+                # a space may be added between any two tokens where at least one is an operator / bracket / dot / comma
                 if (t.type == tokenize.OP or nxt.type == tokenize.OP) and rng.random() < 0.4:
-                    if not (nxt.string in ("(", "[", ".") and t.type != tokenize.OP) and t.string != "." and not (t.string in ("-", "+", "~") and gap == ""):
+                    # (also before the parenthesis of a call - `led.on ()`, `sleep (5)`, `def f (a):` - and around the dot of a method
+                    # call; not before a subscript bracket, which the statement does not list)
+                    if not (nxt.string == "[" and t.type != tokenize.OP) and not (t.string in ("-", "+", "~") and gap == ""):
                         gap = gap + " "
                 pieces.append(gap)
         pieces.append(line[ts[-1].end[1]:])
